@@ -150,6 +150,19 @@ func (r *Report) Finish() int {
 		}
 		return r.Obls[i].Key < r.Obls[j].Key
 	})
+	{ // identical (rule, key, status, detail) obligations are one obligation
+		seen := map[string]bool{}
+		out := r.Obls[:0]
+		for _, o := range r.Obls {
+			id := o.Rule + "\x00" + o.Key + "\x00" + string(o.Status) + "\x00" + o.Detail
+			if seen[id] {
+				continue
+			}
+			seen[id] = true
+			out = append(out, o)
+		}
+		r.Obls = out
+	}
 	for _, f := range r.Floors {
 		if f.Got < f.Min {
 			r.Obls = append(r.Obls, Obligation{Rule: "floor", Key: f.Name, Status: StViolation,
